@@ -144,6 +144,22 @@ def native_register(name, conc, notes):
             "detail": f"real FastEtherCat.register_sync_group: {out}"}
 
 
+def native_fast_update(name, conc, notes):
+    from ebpfcat.ebpfcat import FastSyncGroup
+    bad = []
+    for first in (None, b"old-frame"):
+        for bit in (0, 1):
+            g = object.__new__(FastSyncGroup)
+            g.devices, g.asm_packet, g.current_data = [], b"assembled", first
+            data = bytes([0, 0, 0, 0x10 | bit, 9, 9])
+            ret = g.update_devices(data)
+            want = data if bit else first
+            if ret is not g.asm_packet or g.current_data is not want:
+                bad.append((first, bit, ret, g.current_data))
+    return {"inputs": {"current_data before": [None, "a frame"], "processed bit": [0, 1]}, "reproduced": bool(bad),
+            "detail": f"real FastSyncGroup.update_devices: (before, bit, returned, current_data after) that differ: {bad[:2]}"}
+
+
 def native_stop(name, conc, notes):
     """the real run() of a slow group whose flag is cleared while every frame
     times out (the bus delivers nothing any more)"""
@@ -274,6 +290,8 @@ def run(tier, seed):
         for n in (ns if tier == "thorough" else (1,)):
             api.verify(S.fast_run_contract(n), rep,
                        replay=lambda nm, i, nt: native_register(nm, i, nt) if "KeyError" in nm else native_run(nm, i, nt))
+        # (last: the contract takes the place of the stub UpdateDevices in the registry)
+        api.verify(S.fast_update_devices(), rep, replay=native_fast_update)
         rep.bound(f"SyncGroupBase.run is proved for groups of {ns} terminals (any read/write flags, any subset of "
                   f"FMMU mappings) - bounded in the number of terminals; every await is a cancellation point")
     finally:
